@@ -317,4 +317,22 @@ theorem split_spec (start stop step iv : Int) (hs : 0 < step) (hi : 0 < iv) :
     · simp [hlt]
     · simp [hlt, grid_of_lt (show stop < start by omega)]
 
+/-- the tiles' lengths telescope to `b − a`; each is at most `dur` long -/
+theorem Tiles.sum_len {dur : Int} : ∀ {l : List (Int × Int)} {a b : Int}, Tiles dur l a b →
+    (l.map (fun q => q.2 - q.1)).sum = b - a ∧ b - a ≤ dur * l.length
+  | [], _, _, h => by simp [Tiles] at h
+  | [q], a, b, h => by
+    obtain ⟨h1, h2, _, h4⟩ := h
+    simp; omega
+  | q :: q' :: l, a, b, h => by
+    obtain ⟨h1, h2, h3, h4⟩ := h
+    obtain ⟨ih1, ih2⟩ := Tiles.sum_len h4
+    simp only [List.map_cons, List.sum_cons, List.length_cons] at ih1 ih2 ⊢
+    constructor
+    · omega
+    · have : dur * ((l.length : Int) + 1 + 1) = dur * ((l.length : Int) + 1) + dur := by
+        simp [Int.mul_add]
+      push_cast at ih2 ⊢
+      omega
+
 end Thanos.Split
